@@ -16,7 +16,7 @@ import (
 
 func init() {
 	Register(&Scenario{Prop: "C14", Name: "addresses", Run: scenC14, SoftParks: true, Weight: 1,
-		Rule: "2-3 peers with distinct identities and separate block stores; 3-8 (thorough 3-16) databases whose names come from a segment grammar {ascii, unicode, space, empty, '.', '..', nested, dotted, CID-looking segments of addresses created earlier in the same run}, any registered type, explicit write lists or the creator default; for every input DetermineAddress on every peer, address.Parse(String()) round trip, pairwise distinctness of addresses of distinct inputs; Create on one peer and Open on another through the simulated exchange under delay, loss until heal, or a virtual-time timeout: Open fails or yields the creation type and write list; Create over an existing local database (also after a restart, and after an overwriting Create that failed half-way under local read errors) must be refused without Overwrite and the database must still open LocalOnly; Open(LocalOnly) of an unknown database must be refused; in half of the runs two databases with different write lists are finally opened at the same time on a fresh peer by two calls sharing one options value, each having to come back with its own type and write list; non-trivial = >=3 accepted names, >=1 remote open that succeeded and >=1 name with a special segment"})
+		Rule: "2-3 peers with distinct identities and separate block stores; 3-8 (thorough 3-16) databases whose names come from a segment grammar {ascii, unicode, space, empty, '.', '..', nested, dotted, CID-looking segments of addresses created earlier in the same run}, any registered type, explicit write lists or the creator default; for every input DetermineAddress on every peer, address.Parse(String()) round trip, pairwise distinctness of addresses of distinct inputs; Create on one peer and Open on another through the simulated exchange under delay, loss until heal, or a virtual-time timeout: Open fails or yields the creation type and write list; Create over an existing local database (also after a restart, and after an overwriting Create that failed half-way under local read errors) must be refused without Overwrite and the database must still open LocalOnly; Open(LocalOnly) of an unknown database must be refused (also when the read of the local-presence marker fails with a disk error); in half of the runs two databases with different write lists are finally opened at the same time on a fresh peer by two calls sharing one options value, each having to come back with its own type and write list; non-trivial = >=3 accepted names, >=1 remote open that succeeded and >=1 name with a special segment"})
 }
 
 type c14input struct {
@@ -328,12 +328,30 @@ func scenC14(k *K) {
 			}
 		}
 		// local-only open of a database this peer has never seen must fail
+		if k.C.Chance(1, 3) {
+			// the read of the local-presence marker fails (disk error): the database is still
+			// not one this instance has
+			nd := peers[other].Node
+			k.W.mu.Lock()
+			k.W.DiskFault = func(on *Node, kind, space, key string) error {
+				if on == nd && kind == "cache-get" && strings.HasSuffix(key, "_manifest") {
+					k.W.DiskFault = nil
+					k.W.stat("marker-read-failed")
+					return fmt.Errorf("sim: disk error on %s", key)
+				}
+				return nil
+			}
+			k.W.mu.Unlock()
+		}
 		lop := k.Do(other, "open-localonly", 50, func() (interface{}, error) {
 			ctx, cancel := OpCtx(time.Minute)
 			defer cancel()
 			t := true
 			return peers[other].DB.Open(ctx, in.addr, &orbitdb.CreateDBOptions{LocalOnly: &t})
 		})
+		k.W.mu.Lock()
+		k.W.DiskFault = nil
+		k.W.mu.Unlock()
 		if lop.Done && lop.Err == nil {
 			k.Failf("C14/localonly-unknown-opened", "Open(LocalOnly) of %s succeeded on n%d which never had it", in.addr, other)
 		}
